@@ -127,17 +127,16 @@ def r2(chk):
     # ---- core reader: rank = j - 1 for column j >= 2  (same facts as C18.R5)
     fr = chk.fn(REL, "CVR.from_raire")
     base_core = None
-    for l in [x for x in walk_local(fr) if isinstance(x, ast.For) and isinstance(x.iter, ast.Call) and norm(x.iter.func) == "range" and len(x.iter.args) == 2]:
-        j = norm(l.target)
-        start = Tx().expr(l.iter.args[0])
-        sts = [(t, v, s) for t, v, s in stores(l)]
-        if len(sts) == 1 and isinstance(start, E):
-            rank = Tx(env={j: E(S("j"))}).expr(sts[0][1])
-            if isinstance(rank, E):
-                d = sp.simplify(rank.e - S("j"))
-                if d.is_Number:
-                    # column j holds the (j - start + 1)-th listed candidate; its rank is j + d
-                    base_core = (int(start.e), int(d))
+    F = c18.raire_reader_facts(fr)
+    rk = F.get("rank")
+    if rk is not None:
+        start = Tx().expr(rk["start"])
+        rank = Tx(env={rk["j"]: E(S("j"))}).expr(rk["value"])
+        if isinstance(rank, E) and isinstance(start, E):
+            d = sp.simplify(rank.e - S("j"))
+            if d.is_Number and start.e.is_Number:
+                # column j holds the (j - start + 1)-th listed candidate; its rank is j + d
+                base_core = (int(start.e), int(d))
     ok = base_core == (2, -1)
     chk.ob("C14.R2", W("CVR.from_raire"), "core-rank=k", ok,
            "audit-side reader: the token in column j >= 2 (the (j-1)-th listed candidate) gets rank j - 1: ranks are 1-based", node=fr,
